@@ -405,6 +405,9 @@ func (dec *Decoder) parseFilterHeader() {
 	} else {
 		dec.filterType = 2
 	}
+	if verifhook.NoLoopFilter() {
+		dec.filterType = 0
+	}
 }
 
 // parsePartitions sets up the token-partition bool readers.
